@@ -105,7 +105,7 @@ def formulas(k, with_repeats=True):
 
 # ------------------------------------------------------------------ programs
 FORMS = ("match_events", "await_flows", "when_events", "when_flows", "start_match_flows", "await_actions",
-         "await_flows_cancel", "when_flows_cancel", "match_events_loop", "await_flows_loop")
+         "await_flows_cancel", "when_flows_cancel", "match_events_loop", "await_flows_loop", "when_else_loop")
 
 
 def program(t, form):
@@ -132,6 +132,12 @@ def program(t, form):
         else:
             body = f"  when {g}\n    send Marker()\n  match Done()\n"
         return flows + "flow grp\n" + body + "\nflow main\n  start grp\n  match Done()\n"
+    if form == "when_else_loop":
+        # when/else on a group of flows inside a loop: members may finish (E_i) or fail (StopFlow); each
+        # round ends with Marker (formula satisfied) or ElseMarker (formula can no longer be satisfied)
+        g = show(t, lambda i: f"f{i}")
+        body = f"  while True\n    when {g}\n      send Marker()\n    else\n      send ElseMarker()\n    match Next()\n"
+        return flows + "flow grp\n" + body + "\nflow main\n  start grp\n  match Done()\n"
     if form == "match_events_loop":
         # the statement is executed again and again: every round starts with an empty received set
         g = show(t, lambda i: f"E{i}()")
@@ -151,10 +157,58 @@ def program(t, form):
 
 
 # ------------------------------------------------------------------ explore one program
+def explore_when_else_loop(t, src, lv, depth_extra):
+    fixed = [("ext", f"E{i}", {}) for i in lv] + [("internal", "StopFlow", {"flow_id": f"f{i}"}) for i in lv] + [("ext", "Next", {})]
+
+    def alphabet(state, node):
+        return [("start_main",)] if node.depth == 0 else fixed
+
+    def monitor(ex, prev, aev, conc, taken, nxt, pops):
+        recv, dead = set(prev.aux.get("recv", ())), set(prev.aux.get("dead", ()))
+        phase = prev.aux.get("phase", "active")
+        rounds = prev.aux.get("rounds", 0)
+        expect = []
+        if aev[0] == "start_main":
+            phase = "active"
+        elif phase == "active":
+            if aev[0] == "ext" and aev[1].startswith("E"):
+                i = int(aev[1][1:])
+                if i not in dead:
+                    recv.add(i)
+            elif aev[0] == "internal":
+                i = int(aev[2]["flow_id"][1:])
+                if i not in recv:
+                    dead.add(i)
+                    ex.stats.bump("member_flow_failures")
+            if evaluate(t, recv):
+                expect, phase = ["Marker"], "wait"
+                ex.stats.bump("satisfaction_steps")
+            elif not evaluate(t, set(lv) - dead):
+                expect, phase = ["ElseMarker"], "wait"
+                ex.stats.bump("else_steps")
+        elif phase == "wait" and aev[0] == "ext" and aev[1] == "Next":
+            phase, recv, dead, rounds = "active", set(), set(), rounds + 1
+        got = [e["type"] for e in nxt.state.outgoing_events if e["type"] in ("Marker", "ElseMarker")]
+        nxt.aux.update({"recv": tuple(sorted(recv)), "dead": tuple(sorted(dead)), "phase": phase, "rounds": rounds})
+        if got != expect:
+            raise Violation("group:when_else_loop" + (":later-round" if rounds else ""),
+                            f"formula {show(t, str)} when/else in a loop, round {rounds + 1}: finished={sorted(recv)} failed={sorted(dead)} "
+                            f"expected {expect or 'nothing'}, saw {got or 'nothing'}", {"received": sorted(recv), "dead": sorted(dead)})
+
+    def stop_expand(node):
+        return node.aux.get("rounds", 0) >= 2
+
+    ex = Explorer(src, alphabet, monitors=[monitor] + _c09(), depth=1 + 2 * (len(lv) + 1) + 1 + depth_extra, stop_expand=stop_expand, max_states=60000)
+    ex.run()
+    return _result(ex, t, "when_else_loop")
+
+
 def explore(task):
     t, form, depth_extra = task
     src = program(t, form)
     lv = sorted(set(leaves(t)))
+    if form == "when_else_loop":
+        return explore_when_else_loop(t, src, lv, depth_extra)
     if form == "await_actions":
         return explore_actions(t, src, lv, depth_extra)
     names = [(f"E{i}", {}) for i in lv] + [("X", {})]
